@@ -31,7 +31,7 @@ CONTRACT_MODULES = {
     "C12": ["contracts.c12"],
     "C04": ["contracts.c12"] + _RT + _TF,
     "C02": _RT + _OV + _IN + _TF, "C16": _RT + _TF + ["contracts.tags"], "C01": _RT + _TF + ["contracts.tags"], "C06": _TF,
-    "C03": _OV + _IN, "C07": _OV + _IN, "C11": _IN + _OV + _TF + ["contracts.tags"] + _SP, "C05": _OV + _LC, "C09": _OV, "C17": _OV + _LC, "C10": _OV + _LC + _TF + _SP, "C14": _LC, "C18": _LC + _SP, "C15": _SP, "C13": _SP + ["contracts.c12"],
+    "C03": _OV + _IN, "C07": _OV + _IN, "C11": _IN + _OV + _TF + ["contracts.tags"] + _SP, "C05": _OV + _LC, "C09": _OV, "C17": _OV + _LC, "C10": _OV + _LC + _TF + _SP, "C14": _LC + ["contracts.refs"], "C18": _LC + _SP + ["contracts.refs"], "C15": _SP, "C13": _SP + ["contracts.c12", "contracts.refs"],
 }
 
 UNIT_WALL_BUDGET = {"quick": 150, "thorough": 600}
@@ -308,6 +308,13 @@ def main(argv):
 
     proof_units_ok = all(not r["error"] for r in results if UNITS[r["unit"]].mode == "proof")
     level = "proof" if (n_ob > 0 and n_dis == n_ob and proof_units_ok and not faults) else "other"
+    try:
+        man = json.load(open(os.path.join(ROOT, "MANIFEST.json")))
+        claimed = [ck["level_claimed"]["category"] for ck in man["checks"] if ck["property_id"] == prop]
+        if claimed and claimed[0] != "proof":
+            level = claimed[0]  # a deciding part of this property is only bounded: never reported as proof
+    except Exception:
+        pass
     trusted = sorted(set(_models.ASSUMED + [a for u in units for a in u.assumed]))
     ev = {
         "property_id": prop,
